@@ -847,3 +847,21 @@ pub fn tail_sibling_bad(k: &[u8]) -> u32 {
     }
     tail_fin(a, b, c)
 }
+
+#[cfg(target_arch = "x86_64")]
+#[target_feature(enable = "sse2")]
+pub unsafe fn tail_pos_rebased_ok(h: &[u8], n: &[u8], pos: usize) -> Option<usize> {
+    h[pos..].windows(n.len()).position(|w| w == n).map(|i| i + pos)
+}
+
+#[cfg(target_arch = "x86_64")]
+#[target_feature(enable = "sse2")]
+pub unsafe fn tail_pos_range_ok(h: &[u8], n: &[u8], pos: usize) -> Option<usize> {
+    (pos..=h.len().saturating_sub(n.len())).find(|&i| &h[i..i + n.len()] == n)
+}
+
+#[cfg(target_arch = "x86_64")]
+#[target_feature(enable = "sse2")]
+pub unsafe fn tail_pos_relative_bad(h: &[u8], n: &[u8], pos: usize) -> Option<usize> {
+    h[pos..].windows(n.len()).position(|w| w == n)
+}
